@@ -33,7 +33,8 @@ class EASRadio:
             + losDist * losDist
             - 2 * losDist * lenDec * np.cos(exitView)
         )
-        ang = np.arcsin(np.sqrt(s2phi))
+        # s2phi = 1 up to rounding when the decay point is at right angles to the line of sight
+        ang = np.arcsin(np.sqrt(np.clip(s2phi, 0.0, 1.0)))
         return ang
 
     @decorators.nss_result_store("EFields")
